@@ -589,8 +589,15 @@ func (b *broker) syncRemoveSession(subscriber *wamp.Session) {
 		delete(sub.subscribers, subscriber)
 
 		// If no more subscribers on this subscription.
-		if len(sub.subscribers) == 0 && !b.syncHasEventHistory(sub) {
+		delLastSub := len(sub.subscribers) == 0 && !b.syncHasEventHistory(sub)
+		if delLastSub {
 			b.syncDelSubscription(sub)
+		}
+
+		// Fired when a session is removed from a subscription, as for an
+		// UNSUBSCRIBE.
+		b.syncPubSubMeta(wamp.MetaEventSubOnUnsubscribe, subscriber.ID, subID)
+		if delLastSub {
 			// Fired when a subscription is deleted after the last session
 			// attached to it has been removed.
 			b.syncPubSubMeta(wamp.MetaEventSubOnDelete, subscriber.ID, subID)
